@@ -188,6 +188,9 @@ class Parser:
             if t.text == "++":
                 self.next()
                 return ("preinc", self.unary())
+            if t.text == "--":
+                self.next()
+                return ("predec", self.unary())
             if t.text in ("!", "-", "~", "+"):
                 self.next()
                 return ("un", t.text, self.unary())
